@@ -7,6 +7,7 @@ package sx
 import (
 	"fmt"
 	"go/types"
+	"math"
 	"strconv"
 	"strings"
 	"time"
@@ -499,13 +500,13 @@ func registerIntrinsics(in *Interp) {
 		s := a[0].(Str).norm()
 		bits := in.concInt(a[1])
 		if s.sym != nil {
-			panic(in.unsupported("strconv.ParseFloat on symbolic text"))
+			return in.parseFloatSym(fr, s, bits)
 		}
 		f, err := strconv.ParseFloat(s.s, bits)
 		if err != nil {
-			return Tuple{FloatV{f, 64}, in.newError(fr, ConcStr(err.Error()))}
+			return Tuple{FloatV{f: f, bits: 64}, in.newError(fr, ConcStr(err.Error()))}
 		}
-		return Tuple{FloatV{f, 64}, Iface{}}
+		return Tuple{FloatV{f: f, bits: 64}, Iface{}}
 	}
 	I["strconv.FormatFloat"] = func(in *Interp, fr *frame, a []Val) Val {
 		f := a[0].(FloatV)
@@ -514,11 +515,66 @@ func registerIntrinsics(in *Interp) {
 		bits := in.concInt(a[3])
 		return ConcStr(strconv.FormatFloat(f.f, fm, prec, bits))
 	}
-	I["math.Float64bits"] = func(in *Interp, fr *frame, a []Val) Val { panic(in.unsupported("math.Float64bits")) }
+	I["math.Float64bits"] = func(in *Interp, fr *frame, a []Val) Val {
+		f := a[0].(FloatV)
+		if f.unk {
+			panic(in.unsupported("bits of an untracked float"))
+		}
+		return in.tt.BV(64, math.Float64bits(f.f))
+	}
+	I["math.Float64frombits"] = func(in *Interp, fr *frame, a []Val) Val {
+		return FloatV{f: math.Float64frombits(in.Concretize(a[0].(*Term))), bits: 64}
+	}
+	I["math.Float32bits"] = func(in *Interp, fr *frame, a []Val) Val {
+		f := a[0].(FloatV)
+		if f.unk {
+			panic(in.unsupported("bits of an untracked float"))
+		}
+		return in.tt.BV(32, uint64(math.Float32bits(float32(f.f))))
+	}
+	I["math.Float32frombits"] = func(in *Interp, fr *frame, a []Val) Val {
+		return FloatV{f: float64(math.Float32frombits(uint32(in.Concretize(a[0].(*Term))))), bits: 32}
+	}
 	I["sync/atomic.CompareAndSwapInt32"] = func(in *Interp, fr *frame, a []Val) Val { return in.tt.True }
 	I["(*sync.Mutex).Lock"] = func(in *Interp, fr *frame, a []Val) Val { return nil }
 	I["(*sync.Mutex).Unlock"] = func(in *Interp, fr *frame, a []Val) Val { return nil }
 	I["(*sync.Once).Do"] = func(in *Interp, fr *frame, a []Val) Val { panic(in.unsupported("sync.Once")) }
+}
+
+// parseFloatSym decides the ACCEPTANCE of a symbolic text by strconv.ParseFloat
+// by interpreting the real scanner functions of strconv (special, readFloat)
+// on the symbolic bytes. The numeric value is not tracked (FloatV.unk): using
+// it is unsupported. Range errors cannot be decided here and are excluded by
+// requiring a small concrete decimal exponent.
+func (in *Interp) parseFloatSym(fr *frame, s Str, bits int) Val {
+	sp := in.prog.ImportedPackage("strconv")
+	mkSyntax := func() Val {
+		// syntaxError returns *NumError; wrap it as the error interface value
+		e := in.callFunction(fr, sp.Func("syntaxError"), []Val{ConcStr("ParseFloat"), s}, nil)
+		t := types.NewPointer(sp.Pkg.Scope().Lookup("NumError").Type())
+		return Tuple{FloatV{0, 64, false}, Iface{t: t, v: e}}
+	}
+	r := in.callFunction(fr, sp.Func("special"), []Val{s}, nil).(Tuple)
+	if in.Decide(r[2].(*Term)) {
+		if in.concInt(r[1]) != s.Len() {
+			return mkSyntax()
+		}
+		return Tuple{r[0], Iface{}}
+	}
+	rf := in.callFunction(fr, sp.Func("readFloat"), []Val{s}, nil).(Tuple)
+	// mantissa, exp, neg, trunc, hex, i, ok
+	if !in.Decide(rf[6].(*Term)) || in.concInt(rf[5]) != s.Len() {
+		return mkSyntax()
+	}
+	if in.Decide(rf[4].(*Term)) {
+		panic(in.unsupported("strconv.ParseFloat: symbolic hexadecimal float text"))
+	}
+	exp := rf[1].(*Term)
+	small := in.tt.And(in.tt.Sle(in.tt.BV(64, uint64(^uint64(29))), exp), in.tt.Sle(exp, in.tt.BV(64, 30)))
+	if !in.Decide(small) {
+		panic(in.unsupported("strconv.ParseFloat: symbolic text with a large exponent (range errors are not modelled)"))
+	}
+	return Tuple{FloatV{0, 64, true}, Iface{}}
 }
 
 func v2s(v Str, ok bool) Str {
